@@ -24,8 +24,8 @@ REQUIRED = ['backends/gdb_plugin/extract.py:extract_message', 'backends/gdb_plug
 
 def plan(tier, seed):
     if tier == 'quick':
-        return [{'n': 1300, 'gdb_shim': True} for _ in range(16)]
-    return [{'n': 30000, 'gdb_shim': True} for _ in range(64)]
+        return [{'n': 1300, 'gdb_shim': True} for _ in range(15)] + [{'mode': 'tierb', 'scripts': 1, 'events': 300, 'gdb_shim': True}]
+    return [{'n': 30000, 'gdb_shim': True} for _ in range(56)] + [{'mode': 'tierb', 'scripts': 5, 'events': 500, 'gdb_shim': True} for _ in range(8)]
 
 
 def gen_case(rng, pairs):
@@ -188,7 +188,124 @@ def run_case(ctx, c, world, sim, extract, wl, parse):
         ctx.count('closures_with_argument_after_array')
 
 
+def shim_extract(c, world, sim, extract, wl):
+    """tier A result for one closure, in the same neutral form the tier-B driver logs"""
+    g = world.gdb
+    conn = world.connection()
+    proxies = c['dir'] == 'recv' and c['side'] == 'client'
+    clo = world.closure(c, new_id_as_object=proxies)
+    if c['dir'] == 'recv':
+        if c['side'] == 'client':
+            ev = {'kind': 'recv', 'side': 'client', 'closure': clo, 'target': world.wl_object(c['iface'], c['id'], as_proxy=True), 'display': world.display(conn), 'func': c['func']}
+        else:
+            client = world.client(conn)
+            ev = {'kind': 'recv', 'side': 'server', 'closure': clo, 'target': world.wl_object(c['iface'], c['id'], resource_client=client), 'client': client, 'func': c['func']}
+    else:
+        ev = {'kind': 'send', 'closure': clo, 'connection': conn, 'func': c['func']}
+    func, frame = sim.frames_for(ev)
+    g.STATE.frame = frame
+    try:
+        cid, msg = extract.received_message() if c['dir'] == 'recv' else extract.sent_message()
+    except BaseException as e:
+        return {'exc': '%s: %r' % (type(e).__name__, e)}
+    return {'name': msg.name, 'sent': msg.sent, 'target': [msg.obj.type, msg.obj.id], 'args': [list(decoded(wl, a)) for a in msg.args]}
+
+
+def norm(x):
+    return json_norm(x)
+
+
+def json_norm(x):
+    if isinstance(x, (list, tuple)):
+        return [json_norm(i) for i in x]
+    if isinstance(x, dict):
+        return {k: json_norm(v) for k, v in x.items()}
+    return x
+
+
+def run_tierb(ctx, spec):
+    """real gdb 13 runs the unmodified plugin on the synthetic libwayland-ABI inferior; every closure's extraction must equal
+    the closure, and must be IDENTICAL to what the ctypes shim (tier A) gives for the same closure"""
+    from .. import gdbreal
+    env.setup(spec)
+    if not gdbreal.available():
+        ctx.count('tierb_skipped_no_gdb_or_inferior')
+        return
+    world = gdbsim.World()
+    from backends.gdb_plugin import extract
+    from core import wl
+    sim = gdbsim.Sim(world)
+    rng = ctx.rng
+    pairs = printer.all_pairs(rng)
+    for sc in range(spec['scripts']):
+        script = gdbreal.Script()
+        conns = {'client': script.conn('client'), 'server': script.conn('server')}
+        cases = {}
+        for n in range(spec['events']):
+            c = gen_case(rng, pairs)
+            c['iface'] = 'vq_' + c['iface']      # the whole plugin runs in tier B: keep the random closures free of protocol semantics (bind, delete_id)
+            # strings must survive a C string and gdb's target charset: no NUL, valid UTF-8 (the generator's strings are)
+            seq = script.event(conns[c['side']], 1, c['dir'] == 'send', 0 if c['func'] in ('wl_closure_invoke', 'wl_closure_send') else 1,
+                               c['iface'], c['id'], c['name'], c['sig'], c['args'])
+            cases[seq] = c
+        try:
+            r = gdbreal.run(script, argv_opts=['-C'])
+        except Exception as e:
+            ctx.inconc('tier B run failed: %r' % (e,))
+            return
+        ctx.count('tierb_scripts')
+        got = {x['seq']: x for x in r['records'] if x['t'] == 'extract'}
+        excs = [x for x in r['records'] if x['t'] in ('extract-exception', 'load-exception')]
+        if not any(x['t'] == 'loaded' for x in r['records']):
+            ctx.inconc('tier B: the plugin did not load inside gdb: %s' % (r['stderr'][-400:],))
+            return
+        for x in excs:
+            c = cases.get(x.get('seq'))
+            ctx.violation('tierb-extract-exception', 'under real gdb: %s (signature %r)' % (x.get('exc'), c and c['sig']), {'closure': c, 'tier': 'B'})
+        halts = [x for x in r['records'] if x['t'] == 'halt']
+        if halts:
+            ctx.violation('tierb-unexpected-halt', 'real gdb halted at events %r without a breakpoint matcher (an exception in stop()?) stderr: %s' % (
+                [h['seq'] for h in halts][:5], r['stderr'][-300:]), {'tier': 'B'})
+        for seq, c in cases.items():
+            ctx.ev()
+            b = got.get(seq)
+            case = {'closure': c, 'tier': 'B'}
+            if b is None:
+                if not excs:
+                    ctx.violation('tierb-missing', 'event %d (signature %r) was not reported under real gdb' % (seq, c['sig']), case)
+                continue
+            world.mem.reset(); world.ifaces.clear(); world.strings.clear()
+            a = shim_extract(c, world, sim, extract, wl)
+            bb = {'name': b['name'], 'sent': b['sent'], 'target': b['target'], 'args': b['args']}
+            if json_norm(a) != json_norm(bb):
+                ctx.violation('shim-differs-from-gdb', 'signature %r: the ctypes shim gives %r, real gdb gives %r' % (c['sig'], a, bb), case)
+                continue
+            exp = [list(e) if not isinstance(e[1], tuple) else [e[0], list(e[1])] for e in expected(c)]
+            if b['args'] != json_norm(exp) or b['name'] != c['name'] or b['sent'] != (c['dir'] == 'send') or b['target'][1] != c['id']:
+                ctx.violation('tierb-extract', 'under real gdb, signature %r: extracted %r, the closure holds %r' % (c['sig'], b['args'], exp), case)
+                continue
+            ctx.count('tierb_closures_identical_in_both_tiers')
+            ctx.sig(['B', c['side'], c['dir'], c['sig']])
+            # C printf vs the Python port of wl_closure_print
+            if not (c['dir'] == 'recv' and c['side'] == 'client' and any(x['k'] == 'n' for x in c['args'])):
+                want = printer.render(dict(c, time_us=(1000 + seq) * 1000, send=c['dir'] == 'send'), {'new': True, 'comma': False})
+                have = r['printout'].get(seq)
+                ctx.count('printer_crosschecks')
+                if have is not None and have != want:
+                    ctx.violation('printer-port-differs', 'C wl_closure_print gives %r, the Python port %r' % (have[:200], want[:200]), case)
+        # the sanitizer build of the inferior on the same script (harness hygiene: a bug in MY C code must not look like a plugin defect)
+        try:
+            rs = gdbreal.run(script, sanitize=True)
+            ctx.count('sanitizer_runs')
+            if rs['rc'] != 0:
+                ctx.inconc('the inferior itself fails under ASan/UBSan (harness bug): %s' % rs['stderr'][-300:])
+        except Exception:
+            pass
+
+
 def run(ctx, spec):
+    if spec.get('mode') == 'tierb':
+        return run_tierb(ctx, spec)
     env.setup(spec)
     world = gdbsim.World()
     from backends.gdb_plugin import extract
@@ -214,6 +331,8 @@ def run(ctx, spec):
 
 def finalize(m):
     out = []
+    if m['counters'].get('tierb_skipped_no_gdb_or_inferior'):
+        pass    # tier A still decides; the evidence says tier B was skipped
     if m['counters'].get('memory_reads', 0) == 0:
         out.append('the shim never served a memory read')
     if m['counters'].get('closures_with_argument_after_array', 0) == 0:
